@@ -82,7 +82,7 @@ func c10Check(c MetricCase) (r evid.Result) {
 	}
 	// Conservation, stated explicitly for sum()/bare count: the values at a step add up to the
 	// number of samples in that step's window.
-	if c.M.Kind == "range" || (c.M.Kind == "vecagg" && c.M.Op == "sum" && c.M.Inner.Kind == "range") {
+	if inner.Op == "count_over_time" && (c.M.Kind == "range" || (c.M.Kind == "vecagg" && c.M.Op == "sum" && c.M.Inner.Kind == "range")) {
 		got, _, v, _ := runMetric(recs, c.Caps, c.Superset, c.Text, c.Params)
 		if v != nil {
 			v.Sig = "C10/" + v.Sig
@@ -113,19 +113,38 @@ func c10Check(c MetricCase) (r evid.Result) {
 func c10Gen(t *rapid.T) MetricCase {
 	var c MetricCase
 	d := datagen.GenMetricData(t, 24, rapid.IntRange(0, 3).Draw(t, "ambiguous") != 0, false, false)
-	m := datagen.GenRange(t, d, datagen.RangeOpts{Funcs: []string{"count_over_time"}, NoOffset: true, KeepStage: true}, false)
+	funcs := []string{"count_over_time"}
+	grouped := rapid.IntRange(0, 3).Draw(t, "grouped-range") == 0
+	if grouped {
+		// A range aggregation with its own by/without clause under an outer clause: the series
+		// identity after two levels of grouping.
+		funcs = []string{"max_over_time", "min_over_time"}
+	}
+	m := datagen.GenRange(t, d, datagen.RangeOpts{Funcs: funcs, NoOffset: true, KeepStage: true, Grouping: grouped}, false)
 	// Mostly keep only the ambiguous labels so that label sets really repeat and splice.
 	if rapid.IntRange(0, 2).Draw(t, "keep-group-labels") != 0 {
-		m.Log.Stages = append(m.Log.Stages, gen.Stage{Kind: "keep", Labels: append([]string{}, d.GroupLabels...)})
+		keep := append([]string{}, d.GroupLabels...)
+		if grouped {
+			keep = append(keep, "val", "size", "dur") // the unwrapped labels must survive
+		}
+		m.Log.Stages = append(m.Log.Stages, gen.Stage{Kind: "keep", Labels: keep})
 	}
 	top := m
-	if rapid.Bool().Draw(t, "wrap") {
+	if rapid.Bool().Draw(t, "wrap") || grouped {
 		top = &gen.Metric{Kind: "vecagg", Op: rapid.SampledFrom([]string{"sum", "sum", "count"}).Draw(t, "aggop"), Inner: m}
 		top.Grouping = datagen.GenGrouping(t, d, "g")
 		if top.Grouping == nil {
 			top.Grouping = &gen.Grouping{Without: true, Labels: []string{"nosuch"}}
 		}
 		top.GroupingFirst = rapid.Bool().Draw(t, "grouping-first")
+		if grouped && len(d.GroupLabels) >= 2 && rapid.Bool().Draw(t, "two-level-without") {
+			// Two levels of "without" over different labels: the outer clause must not leak
+			// into the identity of the inner series at later steps.
+			l1 := rapid.IntRange(0, len(d.GroupLabels)-1).Draw(t, "inner-without")
+			l2 := (l1 + 1 + rapid.IntRange(0, len(d.GroupLabels)-2).Draw(t, "outer-without")) % len(d.GroupLabels)
+			m.Grouping = &gen.Grouping{Without: true, Labels: []string{"msg", "id", "val", "size", "dur", d.GroupLabels[l1]}}
+			top.Grouping = &gen.Grouping{Without: true, Labels: []string{d.GroupLabels[l2]}}
+		}
 	}
 	c.Recs = d.Recs
 	c.M = *top
